@@ -151,8 +151,9 @@ def judge (f out : List String) : Verdict :=
           -- the class of the case: from the construction, or (gzip damage) from the harness's gzip reader
           let cl : DClass := match c.dm with
             | .gz _ _ =>
-              if gzErr == "1" then (if isPrefix == "1" then .damagedAt (natOfStr plainLen) else .damagedAt 0)
-              else if natOfStr plainLen == r.text.length && isPrefix == "1" then classify c.doc r .none else .unknown
+              -- `plainLen` counts BYTES of the decompressed prefix; offsets of the spec are characters
+              if gzErr == "1" then (if isPrefix == "1" then .damagedAt (charsWithin (natOfStr plainLen) r.text) else .damagedAt 0)
+              else if charsWithin (natOfStr plainLen) r.text == r.text.length && isPrefix == "1" then classify c.doc r .none else .unknown
             | dm => classify c.doc r dm
           -- decoder assumption, checked: an undamaged valid document is tokenised as the spec says
           let traceOk := match cl, c.dm with
@@ -161,13 +162,16 @@ def judge (f out : List String) : Verdict :=
           -- the document-level reader of Spec/XmlScan against the real decoder, on the text the decoder saw:
           -- equal in everything the loop depends on (entries with contents, sawElement, how the stream ends).
           -- Compared where the reader claims to know: valid documents; damage in the prolog / root start tag
-          -- (XML declaration and namespace semantics are not modelled) and lone high bytes are left out.
+          -- (XML declaration and namespace semantics are not modelled), inside attribute values (typed by the
+          -- unmarshaller, ignored by the reader) and lone high bytes are left out.  A difference is a FAILURE of
+          -- the check whatever the class of the case (`reader-differs`).
           let headLen := (renderToks (prologToks c.doc.prolog ++ rootOpenToks)).length
           let seen : Option (Str × Bool) := match c.dm with
             | .none => some (r.text, false)
             | .trunc n => some (r.text.take n, false)
-            | .set p ch => if p ≥ headLen then some (applyDamage (.set p ch) r.text, false) else none
-            | .gz _ _ => if isPrefix == "1" then some (r.text.take (natOfStr plainLen), gzErr == "1") else none
+            | .set p ch =>
+              if p ≥ headLen && !inAttrValue r.text p then some (applyDamage (.set p ch) r.text, false) else none
+            | .gz _ _ => if isPrefix == "1" then some (r.text.take (charsWithin (natOfStr plainLen) r.text), gzErr == "1") else none
             | .hset _ _ => none
           let scanOk := match seen with
             | some (txt, readerErr) =>
@@ -189,25 +193,45 @@ def judge (f out : List String) : Verdict :=
           | .wellformed =>
             -- content clause: the delivered entries are the DOCUMENT's entries (Spec/UniprotDoc), in order
             let j := isClosed && n == 0 && del == all
-            { corr, judge := some j, cls := base ++ "/wellformed",
+            { corr, judge := some (j && scanOk), cls := base ++ "/wellformed" ++ (if scanOk then "" else "/reader-differs"),
               detail := if corr && j then "" else detailOf "well-formed: want all entries of the document, no error, both closed" }
           | .damagedAt p =>
             let before := entriesBefore c.doc r p
             let j := isClosed && n ≥ 1 && del.take before.length == before
-            { corr, judge := some j,
-              cls := base ++ "/damaged" ++ (if c.doc.valid then "" else "-schema") ++
+            { corr, judge := some (j && scanOk),
+              cls := base ++ (if scanOk then "" else "/reader-differs") ++ "/damaged" ++ (if c.doc.valid then "" else "-schema") ++
                      (if del.length > before.length then "+partial" else "") ++ tag,
               detail := if corr && j then "" else
                 detailOf ("damaged at " ++ toString p ++ ": want the " ++ toString before.length ++
                           " entries before it, >= 1 error, both closed") }
           | .beforeRoot p =>
             let j := isClosed && n ≥ 1
-            { corr, judge := some j, cls := base ++ "/damaged-beforeroot" ++ tag,
+            { corr, judge := some (j && scanOk), cls := base ++ "/damaged-beforeroot" ++ tag ++ (if scanOk then "" else "/reader-differs"),
               detail := if corr && j then "" else
                 detailOf ("truncated at " ++ toString p ++ " before the root element: want >= 1 error, both closed") }
           | .unknown =>
-            { corr, judge := none, cls := base ++ "/unclassified" ++ tag,
-              detail := if corr then "" else detailOf "not judged" }
+            -- whether this damage must be reported is not certain by construction; but the bytes before a known
+            -- damage offset are intact, so the entries before it and the closing of both channels are demanded
+            -- (Props.C20.damaged_document_delivers), and an error too when the reader's trace is not clean
+            let off : Option Nat := match c.dm with
+              | .set p _ => if p < r.text.length then some p else none
+              | .hset p _ => if p < r.text.length && isAscii r.text then some p else none
+              | _ => none
+            match off with
+            | some p =>
+              let before := entriesBefore c.doc r p
+              let needErr := match seen with
+                | some (txt, _) => c.doc.valid && !decide (Clean (scanDoc txt))
+                | none => false
+              let j := isClosed && del.take before.length == before && (!needErr || n ≥ 1)
+              { corr, judge := some (j && scanOk), cls := base ++ "/damage-uncertain" ++ tag ++ (if scanOk then "" else "/reader-differs"),
+                detail := if corr && j then "" else
+                  detailOf ("damage at " ++ toString p ++ " (not certainly malformed): want the " ++ toString before.length ++
+                            " entries before it, both closed" ++ (if needErr then ", >= 1 error" else "")) }
+            | none =>
+              { corr, judge := if scanOk then none else some false,
+                cls := base ++ "/unclassified" ++ tag ++ (if scanOk then "" else "/reader-differs"),
+                detail := if corr then "" else detailOf "not judged" }
         | _ => { badCase with cls := base ++ "/bad-reply", judge := some false, detail := "unreadable reply" }
       | _ => { badCase with cls := base ++ "/bad-reply", judge := some false, detail := "unreadable reply" }
     | status :: _ =>
